@@ -798,6 +798,7 @@ func runC06(c *core.Ctx) core.Meta {
 
 	checkLaneBitIsOneBit(c)
 	checkModifierIndexMatchesOperand(c)
+	checkNoAppendOntoWindow(c, "R06.win", "In the DS handlers the storage is the work-group's LDS: one lane's load then changes what a later lane of the same instruction reads.", 2, emuPkg, cdna3Pkg)
 	return core.Meta{Level: "other",
 		Explanation: "Lane non-interference decided per vector handler of both ALUs on SSA: lane loops 0..63 (R06.loop), every lane write / storage / LDS access uses the loop's lane and is dominated by the edge on which that lane's EXEC bit is set, polarity checked on the CFG edge (R06.guard), every operand read in a lane loop reads the loop's lane, VCC/EXEC/SCC used through lane i's own bit only, no loop-carried value reaches a lane write (R06.flow), scalar destinations written outside the loops from lane-mask accumulators or in the listed cross-lane exception (R06.uniform), scalar handlers do not read EXEC (R06.scalar).",
 		NotDecided:  "what value a lane computes; that InstEmuState implementations keep lanes apart (C07); helper functions that receive the lane as a parameter are checked at their call sites only for the lane argument",
